@@ -388,6 +388,9 @@ func (r *Runner) shrink(d *Disagreement) {
 			if k := bad(cand); k >= 0 {
 				lines = cand[:k+1]
 				changed = true
+				if i > len(lines)-1 {
+					i = len(lines) - 1 // the case got shorter than the position we were at
+				}
 			}
 		}
 	}
